@@ -10,6 +10,7 @@ import re, sys
 def main():
     path = sys.argv[1]
     mp = dict(a.split("=") for a in sys.argv[2:])
+    imp = mp.pop("import", "Discharge")
     s = open(path).read()
     pat = re.compile(r"(Theorem\s+[\w']+\s*:\s*)((?:[\w']+_spec\s*->\s*)+)(.*?Proof\.\s*exact\s+)(\(?[^.]*?\)?)(\.\s*Qed\.)", re.S)
     n = 0
@@ -24,11 +25,11 @@ def main():
             lemma = lemma[1:-1]
         return m.group(1) + m.group(3) + "(" + lemma + " " + " ".join(mp[p] for p in prem) + ")" + m.group(5)
     s2 = pat.sub(rep, s)
-    if "Require Import Discharge" not in s2 and n:
+    if ("Require Import %s." % imp) not in s2 and n:
         # add after the last `From Bnum... Require Import` line of the header
         lines = s2.split("\n")
         idx = max(i for i, l in enumerate(lines) if l.startswith("From Bnum"))
-        lines.insert(idx + 1, "From Bnum.Proofs Require Import Discharge.")
+        lines.insert(idx + 1, "From Bnum.Proofs Require Import %s." % imp)
         s2 = "\n".join(lines)
     open(path, "w").write(s2)
     print("discharged premises in %d theorems of %s" % (n, path))
